@@ -3,43 +3,40 @@
 use super::*;
 use crate::storage::ArrayKey;
 
-/// C09 node_key_offset: on an arbitrary well-formed serialized node (n sorted distinct 1-byte keys, n<=4,
+/// C09 node_key_offset: on an arbitrary well-formed serialized node (n sorted distinct 1-byte keys, n<=3,
 /// arbitrary child offsets) the real descent step returns offsets[#keys <= key] (upper bound).
 #[kani::proof]
-#[kani::unwind(8)]
+#[kani::unwind(6)]
 fn c09_node_key_offset_k1() {
-    const MAXN: usize = 4;
+    const MAXN: usize = 3;
     let n: usize = kani::any();
     kani::assume(n >= 1 && n <= MAXN);
     let keys: [u8; MAXN] = kani::any();
     let offs: [u64; MAXN + 1] = kani::any();
-    let mut i = 1;
-    while i < MAXN {
-        if i < n {
-            kani::assume(keys[i - 1] < keys[i]);
-        }
-        i += 1;
-    }
-    // serialized form: NodeMeta{size:u64} | keys | offsets (u64 LE)
-    let mut buf: Vec<u8> = Vec::with_capacity(8 + MAXN + 8 * (MAXN + 1));
-    buf.extend_from_slice(&(n as u64).to_le_bytes());
+    kani::assume(n < 2 || keys[0] < keys[1]);
+    kani::assume(n < 3 || keys[1] < keys[2]);
+    // serialized form: NodeMeta{size:u64} | keys | offsets (u64 LE); built in a fixed buffer, sliced to its length
+    let mut buf = [0u8; 8 + MAXN + 8 * (MAXN + 1)];
+    buf[..8].copy_from_slice(&(n as u64).to_le_bytes());
     let mut i = 0;
     while i < MAXN {
         if i < n {
-            buf.push(keys[i]);
+            buf[8 + i] = keys[i];
         }
         i += 1;
     }
     let mut i = 0;
     while i <= MAXN {
         if i <= n {
-            buf.extend_from_slice(&offs[i].to_le_bytes());
+            let at = 8 + n + 8 * i;
+            buf[at..at + 8].copy_from_slice(&offs[i].to_le_bytes());
         }
         i += 1;
     }
+    let len = 8 + n + 8 * (n + 1);
     let q: u8 = kani::any();
     let key = ArrayKey::<1>::from([q]);
-    let got = Node::key_offset_serialized(&buf, &key).expect("offset");
+    let got = Node::key_offset_serialized(&buf[..len], &key).expect("offset");
     let mut ub = 0;
     let mut i = 0;
     while i < MAXN {
@@ -51,8 +48,7 @@ fn c09_node_key_offset_k1() {
     assert!(got == offs[ub]);
     kani::cover!(ub == 0, "below all keys");
     kani::cover!(ub == n && n == MAXN, "above all keys, full node");
-    kani::cover!(ub == 2 && n == 4 && keys[1] == q, "equal to an inner key");
-    std::mem::forget(buf);
+    kani::cover!(ub == 2 && n == 3 && keys[1] == q, "equal to an inner key");
 }
 
 /// C09/C17: Node::new_serialized emits NodeMeta | keys | offsets in that order, and the size formula agrees.
